@@ -312,6 +312,11 @@ func (p *Prop[C]) Check(t *testing.T) {
 		if limit == 0 {
 			limit = 120 * time.Second
 		}
+		if s := os.Getenv("VERIF_CASE_LIMIT"); s != "" {
+			if d, err := time.ParseDuration(s); err == nil {
+				limit = d
+			}
+		}
 		timer := time.AfterFunc(limit, func() { watchdog(p.Name, raw, seq, limit) })
 		o := p.safeRun(c)
 		timer.Stop()
@@ -325,7 +330,7 @@ var caseSeq atomic.Int64
 func caseFrame(stacks string) string {
 	// outermost frame of the code under test in the goroutine that runs the case
 	for _, g := range strings.Split(stacks, "\n\n") {
-		if !strings.Contains(g, "verif/vt.(*Prop") {
+		if !strings.Contains(g, ").safeRun(") || !strings.Contains(g, "verif/vt.") {
 			continue
 		}
 		lines := strings.Split(g, "\n")
@@ -344,28 +349,73 @@ func caseFrame(stacks string) string {
 	return ""
 }
 
+// stackShape reduces a full goroutine dump to "goroutine id: function names" for
+// every goroutine that is inside the code under test, without arguments, pcs or
+// wait durations.  Two equal shapes some time apart mean that no goroutine was
+// created, finished or moved to another function: the case is not progressing.
+func stackShape(stacks string) string {
+	var out []string
+	for _, g := range strings.Split(stacks, "\n\n") {
+		if !strings.Contains(g, "github.com/brimdata/super") {
+			continue
+		}
+		lines := strings.Split(g, "\n")
+		head := lines[0]
+		if i := strings.Index(head, " ["); i > 0 {
+			head = head[:i]
+		}
+		fns := []string{head}
+		for _, l := range lines[1:] {
+			if strings.HasPrefix(l, "\t") || strings.HasPrefix(l, "created by") {
+				continue
+			}
+			if i := strings.LastIndex(l, "("); i > 0 {
+				l = l[:i]
+			}
+			fns = append(fns, l)
+		}
+		out = append(out, strings.Join(fns, ";"))
+	}
+	sort.Strings(out)
+	return strings.Join(out, "\n")
+}
+
+func dumpStacks() string {
+	buf := make([]byte, 4<<20)
+	return string(buf[:runtime.Stack(buf, true)])
+}
+
 // watchdog fires when one case has been running for `limit`.  It reports a
-// hang only with no-progress evidence: two goroutine dumps 20 s apart in which
-// the case is still inside the same outermost call into the code under test.
-// Anything else (the case finished meanwhile, or it is not inside the code
-// under test) is left to the go test deadline, i.e. inconclusive.
+// hang only with no-progress evidence: three goroutine dumps 20 s apart whose
+// shape (which goroutines exist inside the code under test and in which
+// functions they are) is identical.  A case that is merely slow (loaded machine,
+// long enumeration) creates and finishes goroutines or moves between functions
+// and is left to the go test deadline, i.e. inconclusive, never a violation.
 func watchdog(name string, raw []byte, seq int64, limit time.Duration) {
-	buf := make([]byte, 1<<20)
-	first := string(buf[:runtime.Stack(buf, true)])
+	first := dumpStacks()
 	f1 := caseFrame(first)
-	time.Sleep(20 * time.Second)
-	if caseSeq.Load() != seq {
+	if os.Getenv("VERIF_DEBUG_WATCHDOG") != "" {
+		fmt.Fprintf(os.Stderr, "watchdog fired for %s: frame=%q\n%s\n", name, f1, first)
+	}
+	if f1 == "" {
 		return
 	}
-	second := string(buf[:runtime.Stack(buf, true)])
-	f2 := caseFrame(second)
-	if f1 == "" || f1 != f2 {
-		return
+	shape := stackShape(first)
+	last := first
+	for i := 0; i < 2; i++ {
+		time.Sleep(20 * time.Second)
+		if caseSeq.Load() != seq {
+			return
+		}
+		last = dumpStacks()
+		if caseFrame(last) != f1 || stackShape(last) != shape {
+			return
+		}
 	}
-	if len(second) > 12000 {
-		second = second[:12000]
+	if len(last) > 60000 {
+		last = last[:60000]
 	}
-	writeFail(name, Failf("hang@"+f1, "case made no progress for %v (+20s) inside %s; goroutines:\n%s", limit, f1, second), raw)
+	writeFail(name, Failf("hang@"+f1, "case made no progress for %v (+40s: three identical goroutine shapes) inside %s; goroutines:\n%s", limit, f1, last), raw)
 	writeStats()
 	fmt.Fprintf(os.Stderr, "VIOLATION sig=hang@%s: no progress for %v\n", f1, limit)
 	os.Exit(3)
@@ -424,7 +474,17 @@ func ReplayFile(t *testing.T, path string) {
 	if run == nil {
 		t.Skipf("replay %s: test %q is not in this package", path, rf.Test)
 	}
+	seq := caseSeq.Add(1)
+	limit := 120 * time.Second
+	if s := os.Getenv("VERIF_CASE_LIMIT"); s != "" {
+		if d, err := time.ParseDuration(s); err == nil {
+			limit = d
+		}
+	}
+	timer := time.AfterFunc(limit, func() { watchdog(rf.Test, rf.Case, seq, limit) })
 	o, err := run(rf.Case)
+	timer.Stop()
+	caseSeq.Add(1)
 	if err != nil {
 		t.Fatalf("replay %s: cannot decode case: %v", path, err)
 	}
